@@ -124,6 +124,11 @@ func run(c *rig.Ctx) {
 					ie |= r.U8() & 0x1f
 				}
 				iff := pend
+				// the three unused IE bits are writable and must play no part in any decision
+				if r.Chance(1, 2) {
+					ie |= r.U8() & 0xe0
+					c.Count("runs_with_ie_high_bits", 1)
+				}
 				m.CPU.XResetToBoundary()
 				m.CPU.XSetRegs(toX(regs))
 				m.Mem.Write(0xffff, ie)
